@@ -406,3 +406,28 @@ mod tests {
         }
     }
 }
+
+#[cfg(rs_matter_verif)]
+impl RxCtrState {
+    /// Verification hook: `(max_ctr, ctr_bitmap)`.
+    pub fn verif_state(&self) -> (u32, u16) {
+        (self.max_ctr, self.ctr_bitmap)
+    }
+}
+
+#[cfg(all(rs_matter_verif, feature = "groups"))]
+impl GroupCtrStore {
+    /// Verification hook: the tracked group senders.
+    pub fn verif_entries(&self) -> crate::verif::Vec<crate::verif::GroupCtrSnap> {
+        self.entries
+            .iter()
+            .map(|e| crate::verif::GroupCtrSnap {
+                fab_idx: e.fab_idx,
+                src_nodeid: e.src_nodeid,
+                max_ctr: e.rx_ctr.max_ctr,
+                bitmap: e.rx_ctr.ctr_bitmap,
+                last_used: e.last_used,
+            })
+            .collect()
+    }
+}
